@@ -187,6 +187,23 @@ Theorem C03_model_passes_checker : forall ids H V, (forall i, In i ids -> valid 
 Proof. exact model_passes_check. Qed.
 Print Assumptions C03_model_passes_checker.
 
+(* ---- histories: the model keeps no state, so the answer to a call is a function of that call's own arguments — after any past, whatever
+        follows, and a repeated call repeats its answer. This is what justifies judging every step of a generated call history (entries
+        "Sequence" and "History") exactly like a standalone call ---- *)
+Theorem C03_answers_do_not_depend_on_history : forall log h, run_from log h = map answer_of h.
+Proof. exact history_irrelevant. Qed.
+Print Assumptions C03_answers_do_not_depend_on_history.
+Theorem C03_same_answer_after_any_history : forall log log' before before' after after' c,
+  nth_error (run_from log (before ++ c :: after)) (length before) = Some (answer_of c) /\
+  nth_error (run_from log (before ++ c :: after)) (length before) =
+  nth_error (run_from log' (before' ++ c :: after')) (length before').
+Proof. exact answer_after_any_history. Qed.
+Print Assumptions C03_same_answer_after_any_history.
+Theorem C03_repeated_call_same_answer : forall log c between,
+  nth_error (run_from log (c :: between ++ [c])) 0 = nth_error (run_from log (c :: between ++ [c])) (S (length between)).
+Proof. exact repeated_call_same_answer. Qed.
+Print Assumptions C03_repeated_call_same_answer.
+
 (* ---- non-vacuity ---- *)
 Open Scope string_scope.
 (* below ground, two zooms up on the vertical axis and one zoom down horizontally: floor, not truncation *)
@@ -205,6 +222,14 @@ Example C03_nonvacuous_helpers : hzoom_strs 1 1 0 2 = ["2/2/0"; "2/3/0"; "2/2/1"
   hzoom_minmax_l 3 5 6 1 = [1; 1; 1; 1]%Z /\ check_change [mk 3 1 1 3 (-1)] 3 1 ["3/1/1/1/0"] = false /\
   check_change [mk 3 1 1 3 (-1)] 3 1 ["3/1/1/1/-1"] = true.
 Proof. repeat split; vm_compute; reflexivity. Qed.
+
+
+(* a history: same vertical index and same zoom difference at two absolute zooms, then the first call again, started after an unrelated past *)
+Example C03_nonvacuous_history :
+  run_from [CallMinMax 1 0 1 1] [CallVertical 5 (-3) 7; CallVertical 6 (-3) 8; CallExt ["34/5/5/34/-2"] 36 34; CallVertical 5 (-3) 7] =
+  [AnsIds (Ok ["7/-12"; "7/-11"; "7/-10"; "7/-9"]); AnsIds (Ok ["8/-12"; "8/-11"; "8/-10"; "8/-9"]); AnsIds Err;
+   AnsIds (Ok ["7/-12"; "7/-11"; "7/-10"; "7/-9"])].
+Proof. vm_compute. reflexivity. Qed.
 
 (* ---- tie to the source by regeneration (DESIGN.md 4.2): the per-axis kernels of integrate/change_zoom.go and shape.CheckZoom, translated
    from /repo's current source on every run (generated/Generated.v), are the models the theorems above are stated on ---- *)
